@@ -186,6 +186,7 @@ type step struct {
 	file      *fileBuf
 	native    string // callback: which built-in
 	named     bool
+	viaThis   bool // the callee is reached as this.fN (the function is also put on Object.prototype)
 	nativeLvl int // index of the native level, -1 if none
 	fnLvl     int
 }
@@ -218,6 +219,7 @@ function evCatch() { try { eval("U()") } catch (e) {} return ok() } function evL
 function rec(n) { return rec(n + 1) } function rc(n) { [1].forEach(function () { rc(n + 1) }) } function re(n) { eval("re(n + 1)") }
 var RG = { get x() { return RG.x } }; function ra(n) { return ok(ra(n + 1), 2) } function rf(n) { try { zz } finally { rf(n + 1) } }
 function RC(n) { this.c = new RC(n + 1) } function rs(n) { [2, 1].sort(function (a, b) { return rs(n + 1) }) }
+Object.defineProperty(Object.prototype, "okp", {value: ok, writable: true, configurable: true});
 var EV = eval; var BAD = {toString: 1, valueOf: 1}; var FROZEN = Object.freeze({a: 1}); var __r;
 var __facts = (function () {
   // the built-ins as they were before any script could rebind them
@@ -309,7 +311,7 @@ func (p *prog) prior(w *fileBuf, lv *lvl) {
 			w.w("ok();")
 		case 1:
 			lv.events = append(lv.events, ev("KDot", w.here()))
-			w.w(Pick(r, []string{"H.ok();", "H.h.ok();", "H . ok ( );"}))
+			w.w(Pick(r, []string{"H.ok();", "H.h.ok();", "H . ok ( );", "this.okp();", "this.okp(1, 2);", "this.okp.call(null);"}))
 		case 2:
 			lv.events = append(lv.events, ev("KBracket", w.here()))
 			w.w(Pick(r, []string{"H[\"ok\"]();", "H['h']['ok']();"}))
@@ -546,6 +548,8 @@ func (p *prog) plan(scopes int) {
 				calls = append(calls, "other", "other", "bind")
 			}
 			s.call = Pick(r, calls)
+			s.viaThis = !strings.HasPrefix(s.def, "meth") && r.Intn(3) == 0 &&
+				(s.call == "plain" || s.call == "new" || s.call == "call" || s.call == "apply")
 			if p.lib != nil && r.Intn(2) == 0 {
 				s.file = p.lib
 			} else {
@@ -628,6 +632,9 @@ func (p *prog) define(si int) {
 		w.w("};")
 	}
 	w.w("\n")
+	if s.viaThis { // every object can now call it as this.fN(...)
+		w.w(fmt.Sprintf("Object.prototype.f%d = f%d;\n", s.n, s.n))
+	}
 	p.sep(w)
 }
 
@@ -808,6 +815,12 @@ func (p *prog) emitCall(w *fileBuf, li, si int) {
 				ref, form = fmt.Sprintf("M%d[\"m\"]", s.n), "KBracket"
 			}
 		}
+		if s.viaThis {
+			ref, form = fmt.Sprintf("this.f%d", s.n), "KDot"
+			if r.Intn(4) == 0 {
+				ref, form = fmt.Sprintf("this[\"f%d\"]", s.n), "KBracket"
+			}
+		}
 		switch s.call {
 		case "plain":
 			at := w.here()
@@ -971,7 +984,7 @@ func (p *prog) emitRaise(w *fileBuf, li int) {
 	case 1:
 		rat("KIdent", mark(Pick(r, []string{"¤U()", "¤U(1, 2)", "1 + ¤U()", "[¤U()]"})))
 	case 2:
-		rat("KDot", mark(Pick(r, []string{"¤O.nope()", "¤O.k()", "¤H.h.nope(1)", "¤NUM.x()"})))
+		rat("KDot", mark(Pick(r, []string{"¤O.nope()", "¤O.k()", "¤H.h.nope(1)", "¤NUM.x()", "¤this.nope()", "¤this.nope9(1, 2)", "¤this.okp.nope()"})))
 	case 3:
 		rat("KBracket", mark(Pick(r, []string{"¤O[\"k\"]()", "¤O['no' + 'pe']()", "¤H[\"h\"][\"k\"]()"})))
 	case 4:
@@ -992,7 +1005,7 @@ func (p *prog) emitRaise(w *fileBuf, li int) {
 		case 0:
 			rat("KIdent", mark(Pick(r, []string{"new ¤U", "new ¤U()", "new ¤NUM(1)"})))
 		case 1:
-			rat("KDot", mark(Pick(r, []string{"new ¤O.k()", "new ¤O.k", "new ¤H.h.k(2)"})))
+			rat("KDot", mark(Pick(r, []string{"new ¤O.k()", "new ¤O.k", "new ¤H.h.k(2)", "new ¤this.nope()", "new ¤this.nope9"})))
 		default:
 			rat("KBracket", mark("new ¤O[\"k\"]()"))
 		}
@@ -1007,12 +1020,12 @@ func (p *prog) emitRaise(w *fileBuf, li int) {
 			noat(at)
 		}
 	case 7:
-		rat("KDot", mark(Pick(r, []string{"¤U.x", "¤NUL.x", "¤null.x", "¤undefined.y", "1 + ¤U.x", "¤O.q.z", "ok(¤U.x)"})))
+		rat("KDot", mark(Pick(r, []string{"¤U.x", "¤NUL.x", "¤null.x", "¤undefined.y", "1 + ¤U.x", "¤O.q.z", "ok(¤U.x)", "¤this.nope9.x", "¤this.nope9.x.y"})))
 	case 8:
 		rat("KBracket", mark(Pick(r, []string{"¤U[\"x\"]", "¤NUL[0]", "¤null['x']", "¤O[\"q\"][1]"})))
 	case 9:
 		if r.Intn(2) == 0 {
-			rat("KDot", mark(Pick(r, []string{"¤U.x = 1", "¤NUL.x = 2", "¤O.q.z = 3"})))
+			rat("KDot", mark(Pick(r, []string{"¤U.x = 1", "¤NUL.x = 2", "¤O.q.z = 3", "¤this.nope9.z = 3"})))
 		} else {
 			rat("KBracket", mark(Pick(r, []string{"¤U[\"x\"] = 1", "¤NUL[0] = 2"})))
 		}
@@ -1422,6 +1435,23 @@ func pinnedProgram(r *rand.Rand, k int) *prog {
 		at := wrap("¤Function(\"zz\").call(null)")
 		g.events = append(g.events, ev("KIdent", at), ev("KDot", at))
 		p.levels = append(p.levels, &lvl{kind: fmt.Sprintf("LvNative %d", nameIDs["call"])}, &lvl{kind: fmt.Sprintf("LvFuncNoFile 0 %d", ef.table)})
+	case 11: // this.f2(): f1 is an active call with a call site
+		p.kind = 10
+		w.w("function f1(a, b) {\n  return ")
+		f1.events = append(f1.events, ev("KDot", w.here()))
+		w.w("this.f2(1);\n}\nfunction f2(a, b) { ")
+		f2 := &lvl{kind: "LvFunc 1020 0"}
+		f2.events = append(f2.events, ev("KDot", mark(w, "new ¤this.f3(); }\nfunction f3() { ")))
+		p.raise = rat(mark(w, "¤zz; }\n"))
+		g.events = append(g.events, ev("KIdent", wrap("¤f1()")))
+		p.levels = append(p.levels, f1, f2, &lvl{kind: "LvFunc 1030 0"})
+	case 12: // this.nope(): the TypeError is positioned at the callee
+		p.kind = 2
+		w.w("function f1(a, b) {\n  ")
+		at := mark(w, "¤this.nope();\n}\n")
+		p.raise = fmt.Sprintf("RAt KDot %d %d %d", at.idx, at.line, at.col)
+		g.events = append(g.events, ev("KIdent", wrap("¤f1()")))
+		p.levels = append(p.levels, f1)
 	case 10: // getter entered from f1: f1 is an active call and has to show in the trace
 		p.kind = 10
 		w.w("var G1 = { get x() { ")
@@ -2458,6 +2488,27 @@ func genText(env *Env, pinned int) {
 	if pinned == 1 {
 		src.WriteString("var e = new TypeError(\"x\"); e.message = \"y\"; ")
 		coq = fmt.Sprintf("ThError %s %s (Some %s) (Some %s)", Cstr("TypeError"), Cstr("x"), Cstr("TypeError"), Cstr("y"))
+	} else if pinned >= 2 || r.Intn(3) == 0 {
+		// user error types: the thrown object is not an error itself, an Error object sits on its prototype chain
+		type dv struct{ setup, pname, pmsg, name, msg string }
+		forms := []dv{
+			{"function V(m) { this.message = m } V.prototype = new Error(); V.prototype.name = \"ValidationError\"; var e = new V(\"field 'age' is required\");", "Error", "", "ValidationError", "field 'age' is required"},
+			{"function V(m) {} V.prototype = new Error(\"proto msg\"); var e = new V();", "Error", "proto msg", "Error", "proto msg"},
+			{"function V(m) { this.message = m } V.prototype = new TypeError(\"tm\"); V.prototype.name = \"MyType\"; var e = new V(\"im\");", "TypeError", "tm", "MyType", "im"},
+			{"function A() {} A.prototype = new Error(\"a\"); function B(m) { this.message = m } B.prototype = new A(); B.prototype.name = \"B\"; var e = new B(\"b\");", "Error", "a", "B", "b"},
+			{"var e = Object.create(new RangeError(\"r\")); e.name = \"Own\";", "RangeError", "r", "Own", "r"},
+			{"function V(m) { this.message = m } V.prototype = new Error(\"pm\"); V.prototype.name = \"N\"; var e = new V(\"\");", "Error", "pm", "N", ""},
+			{"function V(m) { this.message = m; this.name = \"\" } V.prototype = new SyntaxError(\"pm\"); var e = new V(\"only message\");", "SyntaxError", "pm", "", "only message"},
+			{"function V() {} V.prototype = new URIError(\"u\"); var e = new V();", "URIError", "u", "URIError", "u"},
+			{"function V(m) { this.message = m } V.prototype = Object.create(new EvalError(\"deep\")); V.prototype.name = \"Deep\"; var e = new V(\"d\");", "EvalError", "deep", "Deep", "d"},
+			{"var P; try { null.x } catch (x) { P = x } function V(m) { this.message = m } V.prototype = P; var e = new V(\"over caught\");", "TypeError", "?", "TypeError", "over caught"},
+		}
+		f := forms[r.Intn(len(forms))]
+		if pinned >= 2 {
+			f = forms[(pinned-2)%len(forms)]
+		}
+		src.WriteString(f.setup + " ")
+		coq = fmt.Sprintf("ThDerived %s %s (Some %s) (Some %s)", Cstr(f.pname), Cstr(f.pmsg), Cstr(f.name), Cstr(f.msg))
 	} else if r.Intn(4) > 0 {
 		cls := Pick(r, errNames)
 		m := Pick(r, strs)
@@ -2576,13 +2627,17 @@ func genFileSet(env *Env, pinned int) {
 
 func runC19(env *Env) {
 	env.Import = "Otto.C19.Corr"
-	env.Rule = "programs: an error-raising construct of one of 51 kinds placed by a position-tracking generator inside 0-14 nested frames (declared/anonymous/named function expressions, methods, constructors, call/apply/bind, callbacks of 11 built-ins, IIFEs, direct and indirect eval, Function()), 0-3 earlier statements per frame (calls of every callee form, completed evals, caught errors), up to two named files plus eval texts, trace limits -3..15 correlated with the depth, optionally through Otto.Copy; plus the argument-dependent raises (toString radix, toFixed/toExponential/toPrecision digits, new Array(len), length = len) over boundary arguments (range ends, fractions, residues of the legal range modulo 2^31/2^32/2^53/2^63/2^64, negatives, NaN, infinities, numeric strings, objects with valueOf/toString) in both directions; `in`/`instanceof` with operands whose conversion methods log and throw (5 left x 4 right operand kinds, both operators: outcome, class facts and the conversion log); frames entered implicitly (getter/setter of object literals and defineProperty, valueOf/toString of converting operators) in any position of the chain; interpreter-raised errors of 34 forms caught in runtimes whose global error constructors were rebound, deleted or shadowed (local var, with-object, catch variable, parameters) and whose Error.prototype.toString was replaced, judged against the built-ins saved beforehand; 50 scenarios in which both an early and a late error are possible (new, call, member call, in, instanceof, delete, subscripts, assignment, compound assignment, literals: which error wins by class and position, and the log of side effects); earlier statements of every frame include direct evals left normally and by throws caught in the same activation (also through finally), indirect eval, Function(), callbacks, getters/setters and host functions that re-enter Run/Eval/Call; runtimes with a stack depth limit on which overflows (plain recursion, through forEach/sort callbacks, eval, a getter, argument evaluation, a finally block, a constructor, call) were raised and caught in the same activation, in earlier statements, or ended earlier Runs, the frames left at rest counted through Context(); sessions of 2-4 programs on one runtime (also the same texts under other file names, through Run, Compile and Script objects) whose retained errors (Go *otto.Error and caught JS error objects) are all inspected only after the last one was raised; file.Position on random texts/offsets, parser positions of an offending token, uncaught text after name/message mutations, FileSet.Position; non-trivial = distinct case with at least one call frame (traces) or a line break (positions); all text/fileset/facts cases"
+	env.Rule = "programs: an error-raising construct of one of 51 kinds placed by a position-tracking generator inside 0-14 nested frames (declared/anonymous/named function expressions, methods, functions reached as this.f() / new this.f() / this[f](), constructors, call/apply/bind, callbacks of 11 built-ins, IIFEs, direct and indirect eval, Function()), 0-3 earlier statements per frame (calls of every callee form, completed evals, caught errors), up to two named files plus eval texts, trace limits -3..15 correlated with the depth, optionally through Otto.Copy; plus the argument-dependent raises (toString radix, toFixed/toExponential/toPrecision digits, new Array(len), length = len) over boundary arguments (range ends, fractions, residues of the legal range modulo 2^31/2^32/2^53/2^63/2^64, negatives, NaN, infinities, numeric strings, objects with valueOf/toString) in both directions; `in`/`instanceof` with operands whose conversion methods log and throw (5 left x 4 right operand kinds, both operators: outcome, class facts and the conversion log); frames entered implicitly (getter/setter of object literals and defineProperty, valueOf/toString of converting operators) in any position of the chain; interpreter-raised errors of 34 forms caught in runtimes whose global error constructors were rebound, deleted or shadowed (local var, with-object, catch variable, parameters) and whose Error.prototype.toString was replaced, judged against the built-ins saved beforehand; 50 scenarios in which both an early and a late error are possible (new, call, member call, in, instanceof, delete, subscripts, assignment, compound assignment, literals: which error wins by class and position, and the log of side effects); earlier statements of every frame include direct evals left normally and by throws caught in the same activation (also through finally), indirect eval, Function(), callbacks, getters/setters and host functions that re-enter Run/Eval/Call; uncaught instances of user error types (Sub.prototype = new Error() and eight sibling ways of putting an error object on the prototype chain, pinned on every run); runtimes with a stack depth limit on which overflows (plain recursion, through forEach/sort callbacks, eval, a getter, argument evaluation, a finally block, a constructor, call) were raised and caught in the same activation, in earlier statements, or ended earlier Runs, the frames left at rest counted through Context(); sessions of 2-4 programs on one runtime (also the same texts under other file names, through Run, Compile and Script objects) whose retained errors (Go *otto.Error and caught JS error objects) are all inspected only after the last one was raised; file.Position on random texts/offsets, parser positions of an offending token, uncaught text after name/message mutations, FileSet.Position; non-trivial = distinct case with at least one call frame (traces) or a line break (positions); all text/fileset/facts cases"
 	pins := []func(){}
 	for k := 1; k <= 9; k++ {
 		k := k
 		pins = append(pins, func() { genProgram(env, k) })
 	}
-	pins = append(pins, func() { genShadow(env, 1) }, func() { genProgram(env, 10) }, func() { genEval(env, 4) }, func() { genEval(env, 44) }, func() { genOrder(env, 1) }, func() { genArg(env, 1) }, func() { genPos(env, 1) }, func() { genPos(env, 2) }, func() { genSyntax(env, 1) },
+	for k := 2; k <= 11; k++ {
+		k := k
+		pins = append(pins, func() { genText(env, k) })
+	}
+	pins = append(pins, func() { genProgram(env, 11) }, func() { genProgram(env, 12) }, func() { genShadow(env, 1) }, func() { genProgram(env, 10) }, func() { genEval(env, 4) }, func() { genEval(env, 44) }, func() { genOrder(env, 1) }, func() { genArg(env, 1) }, func() { genPos(env, 1) }, func() { genPos(env, 2) }, func() { genSyntax(env, 1) },
 		func() { genText(env, 1) }, func() { genFileSet(env, 1) })
 	for _, f := range pins {
 		f()
